@@ -293,6 +293,39 @@ def syncPart (w : World) : SyncOut :=
       synced := false, statusReplicas := w.s.statusReplicas }
   | .normal => syncF w.s w.fault.scaleAt
 
+/-- `mutatingProtectionInvalid` when the webhook configuration is absent or terminating -/
+def protectOut (w : World) : Out :=
+  if w.stype == .rollingUpdate then quiet w .protectNoop .ok [] false
+  else if w.fault.protect then
+    let q := quiet w .protect .err [.protect] true
+    { q with calls := [.protect false], untouched := false }
+  else
+    let q := quiet w .protect .ok [] false
+    { q with calls := [.protect true], untouched := false, stype := .rollingUpdate, ru := mergeRU w.ru (savedRU w) }
+
+/-- `patchExtraStatus` has something to write -/
+def needPatch (w : World) : Bool := w.sel != .bad && w.extra != wantExtra w
+
+/-- `syncDeployment`, then `patchExtraStatus` (whatever the former returned), errors aggregated, then the
+    requeue decision -/
+def normalOut (w : World) : Out :=
+  let so := syncPart w
+  let want := wantExtra w
+  let extraErr := w.sel == .bad || (needPatch w && w.fault.extra)
+  let extraCalls : List Call := if needPatch w then [.extra want (!w.fault.extra)] else []
+  let errs : List ErrKind := (if so.err then [.sync] else []) ++ (if extraErr then [.extra] else [])
+  let res : Res := if !errs.isEmpty then .err else if satisfied w then .ok else .requeue
+  let sel0 := w.sel == .all && decide (w.obsGen < w.gen)
+  { path := .normal, res := res, errs := errs, calls := so.calls ++ extraCalls,
+    fired := so.fired || (needPatch w && w.fault.extra), swallowed := so.swallowed, undef := so.undef,
+    untouched := false,
+    stype := w.stype, ru := w.ru,
+    extra := if needPatch w && !w.fault.extra then want else w.extra,
+    new := so.new, olds := so.olds,
+    statusReplicas := if so.synced then so.statusReplicas else w.s.statusReplicas,
+    statusUpdated := if so.synced then optPods so.new else w.statusUpdated,
+    obsGen := if so.synced || sel0 then w.gen else w.obsGen }
+
 /-- `ReconcileDeployment.Reconcile` -/
 def reconcile (w : World) : Out :=
   -- r.Get(deployment)
@@ -302,33 +335,9 @@ def reconcile (w : World) : Out :=
   else if !newController w then quiet w .ignored .ok [] false
   -- mutatingProtectionInvalid
   else if w.fault.getW then quiet w .hookErr .err [.hook] true
-  else if w.hook != .present then
-    if w.stype == .rollingUpdate then quiet w .protectNoop .ok [] false
-    else if w.fault.protect then
-      let q := quiet w .protect .err [.protect] true
-      { q with calls := [.protect false], untouched := false }
-    else
-      let q := quiet w .protect .ok [] false
-      { q with calls := [.protect true], untouched := false, stype := .rollingUpdate, ru := mergeRU w.ru (savedRU w) }
-  else
-    let so := syncPart w
-    -- patchExtraStatus (runs whatever syncDeployment returned)
-    let want := wantExtra w
-    let needPatch := w.sel != .bad && w.extra != want
-    let extraErr := w.sel == .bad || (needPatch && w.fault.extra)
-    let extraCalls : List Call := if needPatch then [.extra want (!w.fault.extra)] else []
-    let errs : List ErrKind := (if so.err then [.sync] else []) ++ (if extraErr then [.extra] else [])
-    let res : Res := if !errs.isEmpty then .err else if satisfied w then .ok else .requeue
-    let sel0 := w.sel == .all && decide (w.obsGen < w.gen)
-    { path := .normal, res := res, errs := errs, calls := so.calls ++ extraCalls,
-      fired := so.fired || (needPatch && w.fault.extra), swallowed := so.swallowed, undef := so.undef,
-      untouched := false,
-      stype := w.stype, ru := w.ru,
-      extra := if needPatch && !w.fault.extra then want else w.extra,
-      new := so.new, olds := so.olds,
-      statusReplicas := if so.synced then so.statusReplicas else w.s.statusReplicas,
-      statusUpdated := if so.synced then optPods so.new else w.statusUpdated,
-      obsGen := if so.synced || sel0 then w.gen else w.obsGen }
+  else if w.hook != .present then protectOut w
+  -- syncDeployment + patchExtraStatus + DeploymentRolloutSatisfied
+  else normalOut w
 
 /-- the world the next Reconcile reads when nothing else moves (faults cleared) -/
 def post (w : World) : World :=
